@@ -169,3 +169,27 @@ def enclosing_trys(node, stop):
 
 def names_in(node):
     return {n.id for n in ast.walk(node) if isinstance(n, ast.Name)}
+
+
+def dispatch(ctx, fs, v):
+    """The definition microversion._find_method picks at version v: windows
+    are tried highest minimum first. Returns (func, status): func is None
+    when no window matches and status is the error code of the decorator
+    that was applied last (404/405); unversioned handlers always match."""
+    from psa.gates import parse_version
+    versioned = [f for f in fs if f.version_window is not None]
+    if not versioned:
+        return (fs[-1], None)
+    cands = []
+    for f in versioned:
+        lo, hi, st = f.version_window
+        lo_t = parse_version(lo)
+        hi_t = parse_version(hi) if hi else ctx.gates.max_version
+        cands.append((lo_t, hi_t, st, f))
+    cands.sort(key=lambda x: x[0], reverse=True)
+    for lo_t, hi_t, st, f in cands:
+        if lo_t <= v <= hi_t:
+            return (f, None)
+    # the module-level name is bound to the last definition's wrapper
+    last = max(versioned, key=lambda f: f.node.lineno)
+    return (None, last.version_window[2])
